@@ -1028,3 +1028,295 @@ pub fn bs(s: &str) -> ByteString {
 pub fn by(b: &[u8]) -> Bytes {
     Bytes::copy_from_slice(b)
 }
+
+// ---------------------------------------------------------------------------
+// clients
+
+use ntex_mqtt::v3::client as c3;
+use ntex_mqtt::v5::client as c5;
+use ntex_net::connect::{Connect as NetConnect, ConnectError};
+
+fn mk_conn(cfg: &EpCfg, peer: IoTest, h: Handles) -> Conn {
+    Conn {
+        cfg: cfg.clone(),
+        peer,
+        wire: Vec::new(),
+        parsed: 0,
+        out: Vec::new(),
+        parse_err: None,
+        log: h.log,
+        gates: h.gates,
+        pgates: h.pgates,
+        hgates: h.hgates,
+        sink: h.sink,
+        peer_closed: false,
+        sent: Vec::new(),
+        auto_pump: true,
+    }
+}
+
+/// Start a v5 client over an in-memory transport. The harness answers CONNECT with a CONNACK
+/// built from `cfg.client_connack_props` (written up front, so no event is needed).
+pub async fn start_v5_client(cfg: &EpCfg) -> Conn {
+    let h = Handles::new(cfg);
+    let (peer, client_io) = IoTest::create();
+    peer.remote_buffer_cap(BIG);
+    let scfg = cfg.shared_cfg();
+    // CONNACK first: the client reads it as soon as it has written CONNECT
+    let connack = Pkt::ConnAck { session_present: false, code: 0, props: cfg.client_connack_props.clone() };
+    peer.write(rf::encode(Ver::V5, &connack));
+
+    let slot = Rc::new(RefCell::new(Some(client_io)));
+    let scfg2 = scfg.clone();
+    let connector = c5::MqttConnector::<String, _>::new().connector(fn_service(move |_: NetConnect<String>| {
+        let io = slot.borrow_mut().take();
+        let scfg = scfg2.clone();
+        async move { io.map(|io| Io::new(io, scfg)).ok_or(ConnectError::Unresolved) }
+    }));
+    let svc = connector.create(scfg.clone()).await.expect("client connector");
+    let mut req = c5::Connect::new("mem".to_string()).client_id("me").keep_alive(Seconds(cfg.client_keepalive));
+    if cfg.max_receive != 0 && cfg.max_receive != 16 {
+        req = req.max_receive(cfg.max_receive);
+    }
+    if cfg.max_size != 0 {
+        req = req.max_packet_size(cfg.max_size);
+    }
+    let tam = cfg.max_topic_alias;
+    req = req.packet(move |p| p.topic_alias_max = tam);
+
+    let (log, sink, c) = (h.log.clone(), h.sink.clone(), cfg.clone());
+    let (g, rg, pg) = (h.gates.clone(), h.rgates.clone(), h.pgates.clone());
+    ntex_rt::spawn(async move {
+        let client = match Pipeline::new(svc).call(req).await {
+            Ok(c) => c,
+            Err(e) => {
+                log.push(Rec::ConnDone(format!("connect failed: {e:?}")));
+                return;
+            }
+        };
+        *sink.borrow_mut() = Some(Sink::V5(client.sink()));
+        log.push(Rec::Handshake("accepted".into()));
+        // protocol service: unhandled publishes (mode B), pubrel, disconnect, ping
+        let (log2, g2, rg2, pg2, c2) = (log.clone(), g.clone(), rg.clone(), pg.clone(), c.clone());
+        let protocol = move |msg: c5::control::ProtocolMessage| {
+            let (log, g, rg, pg, c) = (log2.clone(), g2.clone(), rg2.clone(), pg2.clone(), c2.clone());
+            async move {
+                match msg {
+                    c5::control::ProtocolMessage::Publish(p) => {
+                        let k = g.enter();
+                        let mut guard = DropGuard { log: log.clone(), gates: g.clone(), k, proto: false, done: false };
+                        log.push(Rec::HEnter {
+                            k,
+                            qos: p.packet().qos as u8,
+                            pid: p.packet().packet_id.map_or(0, |i| i.get()),
+                            topic: p.packet().topic.to_string(),
+                            dup: p.packet().dup,
+                            retain: p.packet().retain,
+                            size: p.payload_size(),
+                            props: props_str_v5(&p.packet().properties),
+                        });
+                        match c.read_mode {
+                            ReadMode::All => match p.read_all().await {
+                                Ok(b) => log.push(Rec::HPayload { k, bytes: b.to_vec(), err: None }),
+                                Err(e) => log.push(Rec::HPayload { k, bytes: vec![], err: Some(format!("{e:?}")) }),
+                            },
+                            ReadMode::Lazy => loop {
+                                let gg = rg.enter();
+                                rg.wait(gg).await;
+                                rg.st.borrow_mut()[gg].exited = true;
+                                match p.read().await {
+                                    Ok(Some(b)) => log.push(Rec::HPayload { k, bytes: b.to_vec(), err: None }),
+                                    Ok(None) => break,
+                                    Err(e) => {
+                                        log.push(Rec::HPayload { k, bytes: vec![], err: Some(format!("{e:?}")) });
+                                        break;
+                                    }
+                                }
+                            },
+                            ReadMode::Abandon => {}
+                        }
+                        let o = g.wait(k).await;
+                        guard.finish();
+                        log.push(Rec::HExit { k, outcome: o });
+                        match o {
+                            GateOutcome::Ok => Ok::<_, TErr>(p.ack(v5::codec::PublishAckReason::Success)),
+                            GateOutcome::Nack(code) => Ok(p.ack(
+                                v5::codec::PublishAckReason::try_from(code).unwrap_or(v5::codec::PublishAckReason::UnspecifiedError),
+                            )),
+                            GateOutcome::Err => Err(TErr::Plain),
+                        }
+                    }
+                    other => {
+                        let (kind, pid) = match &other {
+                            c5::control::ProtocolMessage::PublishRelease(m) => ("pubrel", m.packet().packet_id.get()),
+                            c5::control::ProtocolMessage::Disconnect(_) => ("disconnect", 0),
+                            c5::control::ProtocolMessage::Ping(_) => ("ping", 0),
+                            c5::control::ProtocolMessage::Publish(_) => unreachable!(),
+                        };
+                        let (o, mut guard) = gated_proto(&log, &pg, kind, pid).await;
+                        guard.finish();
+                        log.push(Rec::PExit { k: guard.k });
+                        match o {
+                            GateOutcome::Err => Err(TErr::Plain),
+                            GateOutcome::Nack(code) => Ok(other.disconnect(v5::codec::Disconnect::new(
+                                v5::codec::DisconnectReasonCode::try_from(code).unwrap_or(v5::codec::DisconnectReasonCode::UnspecifiedError),
+                            ))),
+                            GateOutcome::Ok => Ok(other.ack()),
+                        }
+                    }
+                }
+            }
+        };
+        let r = if c.router {
+            let mk = |tag: &'static str| {
+                let (log, g, rg, c) = (log.clone(), g.clone(), rg.clone(), c.clone());
+                move |p: v5::Publish| v5_publish_handler(p, c.clone(), log.clone(), g.clone(), rg.clone(), tag)
+            };
+            let r = client.resource("t", mk("")).resource("a", mk("A:")).resource("b", mk("B:")).start(protocol).await;
+            format!("{r:?}")
+        } else {
+            let (logc, mode) = (log.clone(), c.ctl);
+            let control = fn_service(move |ctl: Control<TErr>| {
+                let own = Some(v5::codec::Encoded::Packet(v5::codec::Packet::Disconnect(v5::codec::Disconnect::default())));
+                ctl_service(ctl, logc.clone(), mode, own)
+            });
+            let r = client.start_with_control(protocol, control).await;
+            format!("{r:?}")
+        };
+        log.push(Rec::ConnDone(r));
+    });
+    mk_conn(cfg, peer, h)
+}
+
+pub async fn start_v3_client(cfg: &EpCfg) -> Conn {
+    let h = Handles::new(cfg);
+    let (peer, client_io) = IoTest::create();
+    peer.remote_buffer_cap(BIG);
+    let scfg = cfg.shared_cfg();
+    peer.write(rf::encode(Ver::V3, &Pkt::ConnAck { session_present: false, code: 0, props: vec![] }));
+
+    let slot = Rc::new(RefCell::new(Some(client_io)));
+    let scfg2 = scfg.clone();
+    let connector = c3::MqttConnector::<String, _>::new().connector(fn_service(move |_: NetConnect<String>| {
+        let io = slot.borrow_mut().take();
+        let scfg = scfg2.clone();
+        async move { io.map(|io| Io::new(io, scfg)).ok_or(ConnectError::Unresolved) }
+    }));
+    let svc = connector.create(scfg.clone()).await.expect("client connector");
+    let req = c3::Connect::new("mem".to_string()).client_id("me").keep_alive(Seconds(cfg.client_keepalive));
+
+    let (log, sink, c) = (h.log.clone(), h.sink.clone(), cfg.clone());
+    let (g, rg, pg) = (h.gates.clone(), h.rgates.clone(), h.pgates.clone());
+    ntex_rt::spawn(async move {
+        let client = match Pipeline::new(svc).call(req).await {
+            Ok(c) => c,
+            Err(e) => {
+                log.push(Rec::ConnDone(format!("connect failed: {e:?}")));
+                return;
+            }
+        };
+        *sink.borrow_mut() = Some(Sink::V3(client.sink()));
+        log.push(Rec::Handshake("accepted".into()));
+        let (log2, g2, rg2, pg2, c2) = (log.clone(), g.clone(), rg.clone(), pg.clone(), c.clone());
+        let protocol = move |msg: c3::control::ProtocolMessage| {
+            let (log, g, rg, pg, c) = (log2.clone(), g2.clone(), rg2.clone(), pg2.clone(), c2.clone());
+            async move {
+                match msg {
+                    c3::control::ProtocolMessage::Publish(p) => {
+                        let k = g.enter();
+                        let mut guard = DropGuard { log: log.clone(), gates: g.clone(), k, proto: false, done: false };
+                        log.push(Rec::HEnter {
+                            k,
+                            qos: p.packet().qos as u8,
+                            pid: p.packet().packet_id.map_or(0, |i| i.get()),
+                            topic: p.packet().topic.to_string(),
+                            dup: p.packet().dup,
+                            retain: p.packet().retain,
+                            size: p.payload_size(),
+                            props: String::new(),
+                        });
+                        match c.read_mode {
+                            ReadMode::All => match p.read_all().await {
+                                Ok(b) => log.push(Rec::HPayload { k, bytes: b.to_vec(), err: None }),
+                                Err(e) => log.push(Rec::HPayload { k, bytes: vec![], err: Some(format!("{e:?}")) }),
+                            },
+                            ReadMode::Lazy => loop {
+                                let gg = rg.enter();
+                                rg.wait(gg).await;
+                                rg.st.borrow_mut()[gg].exited = true;
+                                match p.read().await {
+                                    Ok(Some(b)) => log.push(Rec::HPayload { k, bytes: b.to_vec(), err: None }),
+                                    Ok(None) => break,
+                                    Err(e) => {
+                                        log.push(Rec::HPayload { k, bytes: vec![], err: Some(format!("{e:?}")) });
+                                        break;
+                                    }
+                                }
+                            },
+                            ReadMode::Abandon => {}
+                        }
+                        let o = g.wait(k).await;
+                        guard.finish();
+                        log.push(Rec::HExit { k, outcome: o });
+                        match o {
+                            GateOutcome::Ok => Ok::<_, TErr>(p.ack()),
+                            _ => Err(TErr::Plain),
+                        }
+                    }
+                    other => {
+                        let (kind, pid) = match &other {
+                            c3::control::ProtocolMessage::PublishRelease(m) => ("pubrel", m.packet_id.get()),
+                            c3::control::ProtocolMessage::Ping(_) => ("ping", 0),
+                            c3::control::ProtocolMessage::Publish(_) => unreachable!(),
+                        };
+                        let (o, mut guard) = gated_proto(&log, &pg, kind, pid).await;
+                        guard.finish();
+                        log.push(Rec::PExit { k: guard.k });
+                        match o {
+                            GateOutcome::Err => Err(TErr::Plain),
+                            _ => Ok(other.ack()),
+                        }
+                    }
+                }
+            }
+        };
+        let r = if c.router {
+            let mk = || {
+                let (log, g, rg, c) = (log.clone(), g.clone(), rg.clone(), c.clone());
+                move |p: v3::Publish| v3_publish_handler(p, c.clone(), log.clone(), g.clone(), rg.clone())
+            };
+            let r = client.resource("t", mk()).resource("a", mk()).resource("b", mk()).start(protocol).await;
+            format!("{r:?}")
+        } else {
+            let (logc, mode) = (log.clone(), c.ctl);
+            let control = fn_service(move |ctl: Control<TErr>| ctl_service::<v3::codec::Encoded>(ctl, logc.clone(), mode, None));
+            let r = client.start_with_control(protocol, control).await;
+            format!("{r:?}")
+        };
+        log.push(Rec::ConnDone(r));
+    });
+    mk_conn(cfg, peer, h)
+}
+
+/// Start the endpoint described by `cfg`; for servers the harness also sends CONNECT
+/// (`connect_props` are the v5 CONNECT properties) unless `send_connect` is false.
+pub async fn start_endpoint(cfg: &EpCfg, connect_props: rf::Props, send_connect: bool) -> Conn {
+    match (cfg.ver, cfg.role) {
+        (Ver::V5, Role::Server) => {
+            let mut c = start_v5_server(cfg).await;
+            if send_connect {
+                c.send(&rf::connect(Ver::V5, "c", cfg.client_keepalive, connect_props));
+            }
+            c
+        }
+        (Ver::V3, Role::Server) => {
+            let mut c = start_v3_server(cfg).await;
+            if send_connect {
+                c.send(&rf::connect(Ver::V3, "c", cfg.client_keepalive, vec![]));
+            }
+            c
+        }
+        (Ver::V5, Role::Client) => start_v5_client(cfg).await,
+        (Ver::V3, Role::Client) => start_v3_client(cfg).await,
+    }
+}
